@@ -136,6 +136,11 @@ impl FreezerFiles {
         let data_size = data.len();
         // open a new file
         if self.head.bytes + data_size as u64 > self.max_size {
+            // `sync_all` reaches the head file only: what has been appended to this file since
+            // the last sync has to be on disk before the file stops being the head, the index
+            // entries of these items are synced by the caller as those of frozen items
+            self.head.file.sync_all()?;
+
             let head_id = self.head_id;
             let next_id = head_id + 1;
             let new_head_file = self.open_truncated(next_id)?;
